@@ -126,6 +126,12 @@ def sympy_to_python_fn(
     """
     fn_args = ", ".join(f"{i}: float" for i in args)
 
+    # Model quantities are real numbers. Sympy writes re(x) / im(x) when it simplifies
+    # e.g. Abs(exp(-x)) for symbols without assumptions, which cannot be printed
+    expr = expr.replace(sympy.re, lambda arg: arg).replace(
+        sympy.im, lambda _: sympy.Float(0.0)
+    )
+
     return f"""def {fn_name}({fn_args}) -> float:
     return {pycode(expr, fully_qualified_modules=True, full_prec=False)}
     """.replace("math.factorial", "scipy.special.factorial")
